@@ -147,6 +147,19 @@ def actions_results(r: dict):
     return list(zip(acts, res))
 
 
+def with_followups(pairs):
+    """(action, result) pairs in which every follow-up call made on a used client appears as a call unit of its own."""
+    for a, res in pairs:
+        yield a, res
+        if a.get("a") == "call" and not (res or {}).get("action_exc"):
+            for fi, fu in enumerate(a.get("followups") or []):
+                sub = {}
+                for variant, vr in (res or {}).items():
+                    if isinstance(vr, dict) and isinstance(vr.get("followups"), list) and fi < len(vr["followups"]):
+                        sub[variant] = vr["followups"][fi]
+                yield dict(fu, a="call", variants=a.get("variants"), client=a.get("client")), sub
+
+
 # ---------------------------------------------------------------------------------------- tree observers (O-AST / O-TOML)
 def tree_static_problems(tree: dict) -> list:
     """compile() every .py, tomllib every pyproject.toml.  Returns [(effect, relpath, msg, text)]."""
